@@ -35,6 +35,7 @@ const (
 	ObjChan
 	ObjClosure
 	ObjCtx
+	ObjMap
 )
 
 type Obj struct {
@@ -46,6 +47,7 @@ type Obj struct {
 	Cap     int
 	Elem    types.Type
 	ElemLay []int
+	KeyLay  []int // maps: key layout (ElemLay = value layout)
 	// closure
 	Fn   *ssa.Function
 	Stub *Stub
@@ -192,6 +194,7 @@ type Engine struct {
 	NoMerge        bool
 	NoLiveness     bool
 	DebugPaths     bool
+	mapIters       int
 	MissingBody    func(fn *ssa.Function) Intrinsic
 	SpawnHook      func(p *Path, callee string)
 	Race           *RaceMon
@@ -2475,13 +2478,184 @@ func (e *Engine) doGo(p *Path, fr *Frame, in *ssa.Go) {
 	e.spawn(p, cc, args, fr, in)
 }
 
-// ---------- maps (not yet supported) ----------
+// ---------- maps: bounded association lists ----------
+//
+// A map object holds a count and MapCap (key, value) slots in insertion
+// order. Iteration visits the present entries in an order chosen by a solver
+// variable (Go randomises map iteration order).
+
+const MapCap = 3
+
+func (e *Engine) mapLayout(kl, vl []int) []int {
+	lay := []int{8}
+	for i := 0; i < MapCap; i++ {
+		lay = append(lay, kl...)
+		lay = append(lay, vl...)
+	}
+	return lay
+}
+
+func (e *Engine) mapObjs(m *Term) []*Obj {
+	addrs, _ := e.ptrLeaves(m)
+	var out []*Obj
+	for _, a := range addrs {
+		if o := e.ObjAt(uint64(a)); o != nil && o.Kind == ObjMap && o.Base == a {
+			out = append(out, o)
+		}
+	}
+	return out
+}
+
+func (e *Engine) mapSlot(p *Path, o *Obj, i int) (Value, Value) {
+	kn, vn := len(o.KeyLay), len(o.ElemLay)
+	base := o.Base + 1 + i*(kn+vn)
+	k := make(Value, kn)
+	v := make(Value, vn)
+	for j := 0; j < kn; j++ {
+		k[j] = p.Load(e, base+j)
+	}
+	for j := 0; j < vn; j++ {
+		v[j] = p.Load(e, base+kn+j)
+	}
+	return k, v
+}
+
+func (e *Engine) mapLen(p *Path, m *Term) *Term {
+	B := e.B
+	res := B.BV(64, 0)
+	for _, o := range e.mapObjs(m) {
+		res = B.Ite(B.Eq(m, B.BV(64, uint64(o.Base))), B.Zext(p.Load(e, o.Base), 64), res)
+	}
+	return res
+}
 
 func (e *Engine) mapOp(p *Path, fr *Frame, instr ssa.Instruction) bool {
-	unsupported("map instruction %T", instr)
-	return false
+	B := e.B
+	switch in := instr.(type) {
+	case *ssa.MakeMap:
+		mt := in.Type().Underlying().(*types.Map)
+		kl, vl := e.Layout(mt.Key()), e.Layout(mt.Elem())
+		ptr := e.allocPool(p, e.siteKey(p, in, "map"), e.mapLayout(kl, vl), ObjMap, "map:"+mt.String(), 1, func(o *Obj) {
+			o.KeyLay, o.ElemLay = kl, vl
+			o.Tracked = true
+		})
+		e.finish(fr, in, Value{ptr})
+	case *ssa.MapUpdate:
+		m := e.Eval(fr, in.Map)[0]
+		k, v := e.Eval(fr, in.Key), e.Eval(fr, in.Value)
+		_, nilc := e.ptrLeaves(m)
+		e.forkFault(p, nilc, "assignment to entry in nil map")
+		for _, o := range e.mapObjs(m) {
+			isThis := B.Eq(m, B.BV(64, uint64(o.Base)))
+			n := p.Load(e, o.Base)
+			found := B.False
+			kn, vn := len(o.KeyLay), len(o.ElemLay)
+			for i := 0; i < MapCap; i++ {
+				ki, vi := e.mapSlot(p, o, i)
+				here := B.And(isThis, B.Ult(B.BV(8, uint64(i)), n), e.valEq(ki, k))
+				appendHere := B.And(isThis, B.Not(found), B.Eq(n, B.BV(8, uint64(i))))
+				found = B.Or(found, here)
+				base := o.Base + 1 + i*(kn+vn)
+				_ = vi
+				for j := 0; j < kn; j++ {
+					p.Store(e, base+j, B.Ite(appendHere, k[j], p.Load(e, base+j)))
+				}
+				for j := 0; j < vn; j++ {
+					p.Store(e, base+kn+j, B.Ite(B.Or(here, appendHere), v[j], p.Load(e, base+kn+j)))
+				}
+			}
+			// appendHere above used the running `found`; recompute the final decision for the count
+			isNew := B.And(isThis, B.Not(found))
+			e.RaiseFlag(p, "unwind", B.And(isNew, B.Not(B.Ult(n, B.BV(8, MapCap)))))
+			p.Store(e, o.Base, B.Ite(isNew, B.Add(n, B.BV(8, 1)), n))
+		}
+		fr.PC++
+	case *ssa.Lookup:
+		mt, ok := in.X.Type().Underlying().(*types.Map)
+		if !ok {
+			unsupported("string indexing")
+		}
+		m := e.Eval(fr, in.X)[0]
+		k := e.Eval(fr, in.Index)
+		val := e.ZeroOf(mt.Elem())
+		okT := B.False
+		for _, o := range e.mapObjs(m) {
+			isThis := B.Eq(m, B.BV(64, uint64(o.Base)))
+			n := p.Load(e, o.Base)
+			for i := 0; i < MapCap; i++ {
+				ki, vi := e.mapSlot(p, o, i)
+				here := B.And(isThis, B.Ult(B.BV(8, uint64(i)), n), e.valEq(ki, k))
+				okT = B.Or(okT, here)
+				val = e.iteVal(here, vi, val)
+			}
+		}
+		if in.CommaOk {
+			e.finish(fr, in, append(append(Value(nil), val...), okT))
+		} else {
+			e.finish(fr, in, val)
+		}
+	case *ssa.Range:
+		if _, ok := in.X.Type().Underlying().(*types.Map); !ok {
+			unsupported("range over string")
+		}
+		m := e.Eval(fr, in.X)[0]
+		// iterator object: [map pointer][position][order]
+		key := e.siteKey(p, in, "iter")
+		it := e.allocPool(p, key, []int{64, 8, 8}, ObjPlain, "mapiter", 1, nil)
+		e.mapIters++
+		order := B.Var(fmt.Sprintf("maporder!%d", e.mapIters), 8)
+		e.StoreVal(p, it, Value{m, B.BV(8, 0), order})
+		e.finish(fr, in, Value{it})
+	case *ssa.Next:
+		if in.IsString {
+			unsupported("range over string")
+		}
+		it := e.Eval(fr, in.Iter)[0]
+		st, _ := e.LoadVal(p, it, []int{64, 8, 8})
+		m, pos, order := st[0], st[1], st[2]
+		tup := in.Type().(*types.Tuple)
+		kT, vT := tup.At(1).Type(), tup.At(2).Type()
+		kz, vz := e.ZeroOf(kT), e.ZeroOf(vT)
+		n := B.Extract(7, 0, e.mapLen(p, m))
+		okT := B.Ult(pos, n)
+		// the pos-th visited slot under the chosen order (permutations of up to 3 slots)
+		perms := [][]int{{0, 1, 2}, {0, 2, 1}, {1, 0, 2}, {1, 2, 0}, {2, 0, 1}, {2, 1, 0}}
+		kv, vv := kz, vz
+		for _, o := range e.mapObjs(m) {
+			isThis := B.Eq(m, B.BV(64, uint64(o.Base)))
+			for pi, perm := range perms {
+				rank := B.BV(8, 0) // number of earlier entries of the permutation that are present
+				for j := 0; j < MapCap; j++ {
+					slot := perm[j]
+					present := B.Ult(B.BV(8, uint64(slot)), n)
+					// the order variable is taken modulo the number of permutations
+					ordIs := B.Eq(B.Urem(order, B.BV(8, uint64(len(perms)))), B.BV(8, uint64(pi)))
+					cond := B.And(isThis, ordIs, present, B.Eq(rank, pos))
+					rank = B.Add(rank, B.BoolToBV(present, 8))
+					if cond.IsFalse() {
+						continue
+					}
+					ks, vs := e.mapSlot(p, o, slot)
+					if len(ks) == len(kv) {
+						kv = e.iteVal(cond, ks, kv)
+					}
+					if len(vs) == len(vv) {
+						vv = e.iteVal(cond, vs, vv)
+					}
+				}
+			}
+		}
+		e.StoreVal(p, B.Add(it, B.BV(64, 1)), Value{B.Add(pos, B.BV(8, 1))})
+		res := Value{okT}
+		res = append(res, kv...)
+		res = append(res, vv...)
+		e.finish(fr, in, res)
+	default:
+		unsupported("map instruction %T", instr)
+	}
+	return true
 }
-func (e *Engine) mapLen(p *Path, m *Term) *Term { unsupported("len(map)"); return nil }
+
 func (e *Engine) mapDelete(p *Path, args []Value, call *ssa.Call) bool {
 	unsupported("delete(map)")
 	return false
